@@ -174,8 +174,17 @@ pub uninterp spec fn has_id(r: Router<Rule>, id: Seq<char>) -> bool;      // a l
 #[verifier::external_body] pub broadcast proof fn axiom_arc_cloned<T>(a: Arc<T>, b: Arc<T>) ensures #[trigger] cloned::<Arc<T>>(a, b) ==> a == b {}
 impl RuleChangeSet {
     // unit lay (Router::apply_change_set): the derived router; what ids it holds depends on the change set — nothing is promised about the studied rule
-    #[verifier::external_body] pub fn update_existing_router(self, existing_router: Arc<Router<Rule>>) -> (r: Router<Rule>) ensures r.config == existing_router.config { unimplemented!() }
+    #[verifier::external_body] pub fn update_existing_router(self, existing_router: Arc<Router<Rule>>) -> (r: Router<Rule>) ensures r.config == existing_router.config, r == updated(self, *existing_router) { unimplemented!() }
+    // a change set that changes nothing
+    //@@ fn src/api/rules_message.rs :: impl RuleChangeSet / fn is_empty -> r
+    //@| ensures r == (self.added@.len() == 0 && self.updated@.len() == 0 && self.deleted@.len() == 0),
+    //@| entry broadcast use vstd::std_specs::hash::group_hash_axioms; broadcast use axiom_string_key_model;
 }
+// the router derived from a shared one by a change set (unit lay: Router::apply_change_set on a clone)
+pub uninterp spec fn updated(cs: RuleChangeSet, existing: Router<Rule>) -> Router<Rule>;
+pub open spec fn cs_empty(cs: RuleChangeSet) -> bool { cs.added@.len() == 0 && cs.updated@.len() == 0 && cs.deleted@.len() == 0 }
+// the router a project-level analysis works on: the shared one itself when the change set changes nothing, otherwise the derived one
+pub open spec fn project_router(cs: RuleChangeSet, existing: Router<Rule>) -> Router<Rule> { if cs_empty(cs) { existing } else { updated(cs, existing) } }
 impl Router<Rule> {
     #[verifier::external_body] pub fn insert(&mut self, item: Rule) ensures final(self).config == old(self).config,
         forall|x: Seq<char>| #[trigger] has_id(*final(self), x) <==> has_id(*old(self), x) || x == item.id@ { unimplemented!() }
@@ -241,6 +250,22 @@ impl ImpactOutput {
     //@| looptail 0: proof { assert(impacts@ =~= im0.push(impacts@.last())); assert forall|i: int| 0 <= i < impacts@.len() implies impact_ok(#[trigger] impacts@[i], rt) by { if i < im0.len() { assert(impacts@[i] == im0[i]); } } }
 }
 //@@ unrename Response
+// ---------------------------------------------------------------- project-level entry points: the same analysis on the router derived by the change set
+//@@ item src/api/explain_request.rs :: struct ExplainRequestInput
+//@@ item src/api/explain_request.rs :: struct ExplainRequestProjectInput
+impl ExplainRequestOutput {
+    // incremental: explain on the derived router (or on the shared one itself when nothing changes) reports the live pipeline's response on THAT router
+    //@@ fn src/api/explain_request.rs :: impl ExplainRequestOutput / fn create_result_from_project -> r
+    //@| ensures r matches Ok(o) ==> (req_of(*existing_router.config, explain_request_input.example) matches Some(q)
+    //@|         && reported_ok(o, project_router(explain_request_input.change_set, *existing_router), explain_request_input.example, q)),
+    //@|     r is Err ==> req_of(*existing_router.config, explain_request_input.example) is None,
+    // from scratch: a router with the given configuration holding the given rules
+    //@@ fn src/api/explain_request.rs :: impl ExplainRequestOutput / fn create_result_without_project -> r
+    //@| ensures r matches Ok(o) ==> (req_of(explain_request_input.router_config, explain_request_input.example) matches Some(q)
+    //@|         && exists|rt: Router<Rule>| *rt.config == explain_request_input.router_config && #[trigger] reported_ok(o, rt, explain_request_input.example, q)),
+    //@|     r is Err ==> req_of(explain_request_input.router_config, explain_request_input.example) is None,
+    //@| loop 0: invariant *router.config == explain_request_input.router_config,
+}
 // ---------------------------------------------------------------- test-example analysis (src/api/test_examples.rs)
 // What is decided: the verdict on an example is taken from the unit trace THE LIVE PIPELINE leaves for that example — the two-phase status
 // decision (an example status of 0 counts as "not given", as in the explain and impact analyses), header and body filters asked with the status the
